@@ -134,6 +134,28 @@ def run_unattached(case):
             st["traces"] += 1
             if len(held) and np.abs(vals[held]).max() > 0:
                 bad(sub + "/extract", "extracted mode on unattached / prescribed points", float(np.abs(vals[held]).max()), 0)
+            # fields whose value arrays are held in another memory layout (column-major start values, a view on a wider table)
+            # and carry a previous state: the extracted field IS mode n (free unknowns = eigenvector, all others zero)
+            for lay in ("F", "view"):
+                for inpl in (True, False):
+                    prev = 1e-3 * (1.0 + zoo.offarr(seed, 1811, field[0].values.shape))
+                    if lay == "F":
+                        field[0].values = np.asfortranarray(prev)
+                    else:
+                        wide_ = np.zeros((prev.shape[0], prev.shape[1] + 2))
+                        wide_[:, 1:-1] = prev
+                        field[0].values = wide_[:, 1:-1]
+                    try:
+                        fx, _ = job.extract(n=0, inplace=inpl)
+                    except Exception as ex:  # noqa
+                        bad(sub + f"/extract/values={lay}/inplace={inpl}/exception", "extract raised for a field held in another memory layout", repr(ex)[:160], "the mode")
+                        continue
+                    st["traces"] += 1
+                    want_ = np.zeros(mesh.npoints * d)
+                    want_[exp1] = V[:, 0]
+                    got_ = np.asarray(fx[0].values, dtype=float).reshape(-1)
+                    if np.abs(got_ - want_).max() > 1e-14 * max(np.abs(want_).max(), 1e-300):
+                        bad(sub + f"/extract/values={lay}/inplace={inpl}", "extracted field vs mode 0 (eigenvector on the free unknowns, zero elsewhere) for a field held in another memory layout", float(np.abs(got_ - want_).max()), 0)
             nzero = int((np.abs(lam) < 1e-8 * np.abs(K).max()).sum())
             outcomes.add(f"zero-modes={nzero}")
             nontrivial.append(sub)
